@@ -769,7 +769,9 @@ class C15(Prop):
         "the symbol table of each case is serialised from the typed module in the order build() visits it",
         "what is a reserved word of the target = the exporter's RESERVED_NAMES (after the repairs: SamplerState typo, Metal address-space keywords)",
         "names the generator never sees (struct members, enum values, cbuffer names and members, template parameters) are outside the model; they are probed on the emitted text and recorded as known findings",
-        "renaming equivariance and 'every use refers to the same entity' are not proved; they are exercised only through C04's recompilation fixpoint",
+        "'every use refers to the entity it referred to': proved for the path model (coq/model/Scopes.v, `C15_emitted_path_names_its_symbol`: the path `emit` writes for a symbol resolves, by the front end's lookup, to that symbol from every use site, under every stack of local frames); tied by running `Scopes.emit` against NameMap::get_name_qualified for every symbol x every use site (root and each namespace) of every table case, incl. programs of shadowing names three namespaces deep with enum values, members and methods of the same names; and end to end by U cases: the emitted HLSL of such programs is read back by the front end and every function body must name the same entities",
+        "the environment handed to `Scopes.emit` (which namespaces exist, what each declares, which names are members / locals / methods) is built from the case's symbol table by the extraction glue (coq/extract/EC15.v), not proved",
+        "renaming equivariance is not proved",
     ]
 
     def known_class(self, case, impl, model):
@@ -780,10 +782,16 @@ class C15(Prop):
         return None
 
     def comparable(self, case, impl, model):
-        return not (impl.startswith("REJECT") or impl.startswith("IR-CHANGED") or impl.startswith("BAD")
+        return not (impl.startswith("REJECT") or impl.startswith("IR-CHANGED") or impl.startswith("BAD") or case.startswith("U ")
                     or (case.startswith("R ") and impl.startswith("PANIC")))
 
     def oracle(self, case, impl, model=None):
+        if case.startswith("U "):
+            if impl.startswith("USES-DIFFER"):
+                return "a use in the emitted HLSL names another entity than in the source: " + impl[12:400]
+            if impl.startswith("REREAD-REJECTED") or impl.startswith("MISSING") or impl.startswith("REREAD-PANIC"):
+                return "the emitted HLSL of a program of shadowing names does not read back as the program: " + impl[:300]
+            return None
         if case.startswith("R "):
             if impl.startswith("LEAK"):
                 w = case.split()
@@ -794,6 +802,10 @@ class C15(Prop):
         if impl.startswith("PANIC"):
             return "name generation aborted"
         head = case.split(" # ")[0].split()
+        extras = []
+        if "|" in head:
+            extras = head[head.index("|") + 1:]
+            head = head[:head.index("|")]
         target, w = head[0], head[1:]
         reserved = _reserved(target)
         decls, i = {}, 0
@@ -807,12 +819,19 @@ class C15(Prop):
                 decls[(str(kind), w[i + 1])] = (w[i + 2], w[i + 3])
                 scopes.setdefault(w[i + 2], {}).setdefault(w[i + 3], []).append((str(kind), w[i + 1]))
                 i += 4
-        got = {}
+        got, anchors = {}, {}
         for t in impl.split():
+            m = re.match(r"^Q:(\d+):(\d+)=([01]*)$", t)
+            if m:
+                anchors[(m.group(1), m.group(2))] = m.group(3)
+                continue
             m = re.match(r"^(\w+):(\d+)=(.*)$", t)
             if not m:
                 return "unreadable result %r" % t
             got[(m.group(1), m.group(2))] = m.group(3)
+        why = self._paths_resolve(decls, extras, got, anchors)
+        if why:
+            return why
         for key in decls:
             if key not in got:
                 return "symbol %s:%s received no name" % key
@@ -836,10 +855,78 @@ class C15(Prop):
                 return "local %s is emitted under %r, a name generated for a global symbol" % (key[1], got[key])
         return None
 
+    @staticmethod
+    def _paths_resolve(decls, extras, got, anchors):
+        """The path the exporters write for every symbol (namespaces from the root, then the name; `::` in front where
+        the flag says so), looked up the way the front end does from every use site, must find that symbol."""
+        if not anchors:
+            return None
+        nss = sorted((int(i) for (k, i) in decls if k == "0"))
+        parent = {int(i): (None if decls[(k, i)][0] == "-" else int(decls[(k, i)][0])) for (k, i) in decls if k == "0"}
+        def path(ns):          # generated names from the root
+            out = []
+            while ns is not None:
+                out.insert(0, got[("0", str(ns))])
+                ns = parent[ns]
+            return tuple(out)
+        ns_paths = {path(n) for n in nss}
+        has = set()            # (namespace path, name)
+        for (k, i), (sc, _) in decls.items():
+            if k in ("1", "2", "3", "4"):
+                has.add((path(None if sc == "-" else int(sc)), got[(k, i)]))
+        inner = {got[key] for key in decls if key[0] == "L"}
+        j = 0
+        while j < len(extras):
+            if extras[j] == "V":
+                has.add((path(int(extras[j + 1])), extras[j + 2])); j += 3
+            elif extras[j] == "M":
+                inner.add(extras[j + 1]); j += 2
+            elif extras[j] == "T":
+                inner.add(got.get(("4", extras[j + 1]), "")); j += 2
+            else:
+                return "unreadable table extras"
+        def find_in(s, dirs, leaf):
+            t = tuple(s)
+            for d in dirs:
+                t = t + (d,)
+                if t not in ns_paths:
+                    return None
+            return t if (t, leaf) in has else None
+        sites = [None] + nss
+        for (k, i), flags in anchors.items():
+            sc = decls[(k, i)][0]
+            home = path(None if sc == "-" else int(sc))
+            leaf = got[(k, i)]
+            if len(flags) != len(sites):
+                return "unreadable anchor flags"
+            for u, fl in zip(sites, flags):
+                if fl == "1":
+                    found = find_in((), home, leaf)
+                else:
+                    first = (list(home) + [leaf])[0]
+                    if first in inner:
+                        return "the path of %s:%s (%s) written without `::` starts with %r, which a local, a member or a method can also be called" % (k, i, "::".join(home + (leaf,)), first)
+                    s_ = list(path(u))
+                    found = None
+                    while True:
+                        found = find_in(tuple(s_), home, leaf)
+                        if found is not None or not s_:
+                            break
+                        s_.pop()
+                if found != home:
+                    return "the path %s%s written for %s:%s inside namespace %s is looked up as %s" % (
+                        "::" if fl == "1" else "", "::".join(home + (leaf,)), k, i, "::".join(path(u)) or "<root>",
+                        "::".join(found + (leaf,)) if found is not None else "nothing")
+        return None
+
     def nontrivial(self, case, impl):
-        return not case.startswith("R ") and re.search(r"_\d+\b", impl) is not None
+        if case.startswith("U "):
+            return impl.startswith("USES-SAME") and impl != "USES-SAME 0"
+        return not case.startswith("R ") and (re.search(r"_\d+\b", impl) is not None or re.search(r"Q:\d+:\d+=[01]*1", impl) is not None)
 
     def kind(self, case):
+        if case.startswith("U "):
+            return "uses re-read"
         if case.startswith("R "):
             return "probe " + case.split()[2]
         return "table " + case[0]
